@@ -13,6 +13,9 @@ Sc(t, s, b, ch, meta) == [table |-> t, scripts |-> s, buf |-> b, mode |-> "I", c
 Pick(seq, idx) == [i \in 1..Len(idx) |-> seq[idx[i]]]
 Seqs(S, n) == UNION {[1..k -> S] : k \in 0..n}
 NESeqs(S, n) == UNION {[1..k -> S] : k \in 1..n}
+RECURSIVE FoldSum(_)
+FoldSum(c) == IF c = <<>> THEN 0 ELSE Head(c) + FoldSum(Tail(c))
+PrefSum(c, i) == FoldSum(SubSeq(c, 1, i))
 
 (* C02: 1..MaxUnits headers of the vocabulary joined by ';' *)
 InitC02 == \E us \in NESeqs(1..Len(C02Hdrs), MaxUnits) :
@@ -48,7 +51,28 @@ InitC08 == \/ \E m \in Msgs1 \cup Msgs2 : Part = 0 /\ sc = Sc(C08Table, C08Scrip
                  /\ MaxUnits >= 2 /\ u % NParts = Part
                  /\ sc = Sc(C08Table, C08Scripts, 64, <<C08Units[u] \o C08Terms[t] \o m2>>, [hdrs |-> <<>>])
 
+(* C17: binary / ASCII arrays of every element size in both byte orders, blocks around header-length changes, *)
+(* streamed blocks in every split, over-length data at every point, header-only calls for large lengths      *)
+ArrPat == [s \in {1, 2, 4, 8} |-> << [i \in 1..s |-> 0], [i \in 1..s |-> i], [i \in 1..s |-> 256 - i], [i \in 1..s |-> IF i = 1 THEN 128 ELSE 0] >>]
+ArrKinds == [s \in {1, 2, 4, 8} |-> IF s = 1 THEN <<"au8", "ai8">> ELSE IF s = 2 THEN <<"au16", "ai16">>
+                                   ELSE IF s = 4 THEN <<"au32", "ai32", "aflt">> ELSE <<"au64", "ai64", "adbl">>]
+QArr == <<65, 82, 82, 63>>      \* "ARR?"
+ScArr(ops) == Sc(<<<<QArr, 1>>>>, <<<<1, 1, 0, ops>>>>, 256, <<QArr \o LF>>, [hdrs |-> <<QArr>>])
+BlkData(n) == [i \in 1..n |-> IF i % 7 = 0 THEN 10 ELSE IF i % 5 = 0 THEN 59 ELSE (i * 37) % 256]
+Compositions(n) == IF n = 0 THEN {<<>>} ELSE { c \in UNION {[1..k -> 1..n] : k \in 1..n} : FoldSum(c) = n }
+BigLens == {9, 10, 11, 99, 100, 101, 999, 1000, 9999, 10000, 99999, 100000, 999999, 1000000, 9999999, 10000000, 99999999, 100000000, 999999999}
+InitC17 ==
+  \/ \E s \in {1, 2, 4, 8}, fmt \in 0..2, n \in 0..MaxUnits, k \in 1..3 : \E es \in [1..n -> 1..4] :
+        /\ k <= Len(ArrKinds[s]) /\ (fmt = 0 => s <= 2) /\ Part = (s + fmt + n) % NParts
+        /\ sc = ScArr(<< <<"r", ArrKinds[s][k], fmt, n, [i \in 1..n |-> ArrPat[s][es[i]]]>>, <<"r", "i32", 7>> >>)
+  \/ \E n \in {0, 1, 2, 9, 10, 11, 99, 100, 101, 255} : Part = n % NParts /\ sc = ScArr(<< <<"r", "blk", BlkData(n)>>, <<"r", "i32", 7>> >>)
+  \/ \E n \in 1..4 : \E c \in Compositions(n) : Part = n % NParts /\
+        sc = ScArr(<<<<"bh", n>>>> \o [i \in 1..Len(c) |-> <<"bd", SubSeq(BlkData(n), PrefSum(c, i - 1) + 1, PrefSum(c, i))>>] \o << <<"r", "i32", 7>> >>)
+  \/ \E n \in 0..3, k \in 0..3 : k <= n /\ Part = (n + k) % NParts /\           \* k bytes sent, then one byte too many, then the rest
+        sc = ScArr(<< <<"bh", n>>, <<"bd", SubSeq(BlkData(n), 1, k)>>, <<"bd", [i \in 1..(n - k + 1) |-> 66]>>, <<"bd", SubSeq(BlkData(n), k + 1, n)>>, <<"r", "i32", 7>> >>)
+  \/ \E n \in BigLens : Part = n % NParts /\ sc = ScArr(<< <<"bh", n>> >>)
 Next == UNCHANGED sc
+SpecC17 == InitC17 /\ [][Next]_sc
 SpecC02 == InitC02 /\ [][Next]_sc
 SpecC05 == InitC05 /\ [][Next]_sc
 SpecC06 == InitC06 /\ [][Next]_sc
